@@ -81,6 +81,11 @@ enum Op {
     /// a new BGP session reaches Established now: the real
     /// `PeerSession::on_established` runs (initial dump), then the session ends
     Sess,
+    /// table side of the end of peer p's current session, as session_loop does it:
+    /// `unregister_peer(addr, drop_families, stale_families)` + `peer_down`; `hard`
+    /// = the disconnect is not GR-eligible (hard reset / NOTIFICATION without
+    /// N-bit), so every family is dropped.  The peer's next session uses a new Source.
+    TDrop(u8, bool),
 }
 
 fn mask_str(m: u8) -> String {
@@ -98,6 +103,7 @@ fn op_str(op: &Op) -> String {
         Op::Ev(Ev::Wd(p)) => format!("PeerWithdrawn(p{})", p + 1),
         Op::Ev(Ev::Timer) => "TimerExpired".to_string(),
         Op::Ins(f, x, s) => format!("insert_route({}, prefix#{}, from src{})", FAM_NAME[*f as usize], x, s + 1),
+        Op::TDrop(p, hard) => format!("session of p{} ends on the table side ({})", p + 1, if *hard { "not GR-eligible: all families dropped" } else { "GR families marked stale, the others dropped" }),
         Op::Sess => "new session established (real PeerSession::on_established), then route refresh of every family".to_string(),
     }
 }
@@ -122,6 +128,7 @@ fn replay_code(cfg: &Cfg, ops: &[Op]) -> String {
             Op::Ev(Ev::Timer) => "T".to_string(),
             Op::Ins(f, x, sr) => format!("I{}.{}.{}", f, x, sr),
             Op::Sess => "S".to_string(),
+            Op::TDrop(p, h) => format!("D{}.{}", p, h as u8),
         })
         .collect();
     s.push_str(&v.join(","));
@@ -147,7 +154,7 @@ fn parse_replay_code(code: &str) -> Option<(Cfg, Vec<Op>)> {
                 cfg.helper = [n[0] & 7, n[1] & 7, n[2] & 7];
             }
             "t" => cfg.timer = v == "1",
-            "s" => cfg.shards = if v == "2" { 2 } else { 1 },
+            "s" => cfg.shards = v.parse::<u8>().ok().filter(|n| [1, 2, 4].contains(n)).unwrap_or(1),
             "m" => cfg.mode = if v == "s" { Mode::Session } else { Mode::Glue },
             "o" => {
                 for w in v.split(',').filter(|w| !w.is_empty()) {
@@ -160,6 +167,7 @@ fn parse_replay_code(code: &str) -> Option<(Cfg, Vec<Op>)> {
                         ("W", 1) if (n[0] as usize) < NP => Op::Ev(Ev::Wd(n[0])),
                         ("T", 0) => Op::Ev(Ev::Timer),
                         ("S", 0) => Op::Sess,
+                        ("D", 2) if (n[0] as usize) < NP => Op::TDrop(n[0], n[1] != 0),
                         ("I", 3)
                             if (n[0] as usize) < NTF
                                 && (n[1] as usize) < NPFX
@@ -420,6 +428,12 @@ struct Env {
     net_index: FnvHashMap<packet::Nlri, (u8, u8)>,
     /// attribute lists for tags 0..ATTR_POOL (MED = tag), shared across histories
     attrs: Vec<Arc<Vec<packet::Attribute>>>,
+    /// shard_of[log2(shards)][family][prefix]: where the real tables put the prefix
+    shard_of: Vec<Vec<Vec<u8>>>,
+}
+
+fn new_source(env_peers: &[IpAddr; NSRC], i: usize) -> Arc<table::Source> {
+    Arc::new(table::Source::new(env_peers[i], IpAddr::V4(Ipv4Addr::new(10, 0, 0, 254)), 65100 + i as u32, 65001, Ipv4Addr::new(2, 0, 0, 1 + i as u8), PeerRole::Ebgp))
 }
 
 const ATTR_POOL: u32 = 256;
@@ -532,7 +546,24 @@ impl Env {
                 net_index.insert(nlri[f][x].clone(), (f as u8, x as u8));
             }
         }
+        let mut shard_of = Vec::new();
+        for lg in 0..3 {
+            let n = 1usize << lg;
+            let sc = TableManager::new(n);
+            let mut per_f = Vec::new();
+            for f in 0..NTF {
+                let mut per_x = Vec::new();
+                for x in 0..NPFX {
+                    sc.insert_route(sources[0].clone(), fam_of(f), packet::PathNlri::new(nlri[f][x].clone()), Some(nh[f]), mk_attrs(0), None, 0);
+                    let sh = (0..n).find(|sh| sc.shards[*sh].lock().unwrap().rtable.collect_loc_rib_paths(&fam_of(f)).iter().any(|c| c.net == nlri[f][x])).unwrap_or(0);
+                    per_x.push(sh as u8);
+                }
+                per_f.push(per_x);
+            }
+            shard_of.push(per_f);
+        }
         Env {
+            shard_of,
             peers,
             observer: IpAddr::V4(Ipv4Addr::new(10, 0, 0, 100)),
             sources,
@@ -612,6 +643,10 @@ struct Sys<'a> {
     sessions: Vec<Option<PeerSession>>,
     /// session mode: the peer's current session negotiated GR (EOR is only signalled then)
     sess_gr: [bool; NP],
+    /// negotiated GR family mask of the peer's current (established) session
+    sess_mask: [Option<u8>; NP],
+    /// the Source routes of each origin are inserted with; a peer gets a new one per session
+    cur_src: Vec<Arc<table::Source>>,
     unknown_net: bool,
 }
 
@@ -718,8 +753,44 @@ impl<'a> Sys<'a> {
             rx,
             sessions: (0..NP).map(|_| None).collect(),
             sess_gr: [false; NP],
+            sess_mask: [None; NP],
+            cur_src: (0..NSRC).map(|i| new_source(&env.peers, i)).collect(),
             unknown_net: false,
         }
+    }
+
+    fn shard_of(&self, f: usize, x: usize) -> usize {
+        let lg = match self.cfg.shards {
+            1 => 0,
+            2 => 1,
+            _ => 2,
+        };
+        self.env.shard_of[lg][f][x] as usize
+    }
+
+    /// What session_loop does with the tables when peer p's session ends.
+    /// Returns (dropped families, stale families) as family indices, or None when
+    /// the peer has no established session (nothing was registered).
+    fn table_side_of_session_end(&mut self, p: usize, hard: bool) -> Option<(Vec<usize>, Vec<usize>)> {
+        let mask = self.sess_mask[p]?;
+        let gr_mask = if hard { 0 } else { mask };
+        // every session negotiates all four table families; GR only for `mask`
+        let stale: Vec<usize> = (0..NTF).filter(|f| *f < NF && gr_mask & (1 << f) != 0).collect();
+        let dropf: Vec<usize> = (0..NTF).filter(|f| !stale.contains(f)).collect();
+        let drop_families: Vec<Family> = dropf.iter().map(|f| fam_of(*f)).collect();
+        let stale_families: Vec<Family> = stale.iter().map(|f| fam_of(*f)).collect();
+        let addr = self.env.peers[p];
+        self.tables.unregister_peer(addr, &drop_families, &stale_families);
+        self.tables.peer_down(crate::table_manager::PeerDownData {
+            peer_addr: addr,
+            peer_asn: 65100 + p as u32,
+            peer_id: u32::from(Ipv4Addr::new(2, 0, 0, 1 + p as u8)),
+            uptime: 0,
+            reason: crate::bmp::session_down_to_bmp(None),
+        });
+        self.sess_mask[p] = None;
+        self.cur_src[p] = new_source(&self.env.peers, p);
+        Some((dropf, stale))
     }
 
     async fn timer_armed(&self) -> bool {
@@ -858,7 +929,7 @@ impl<'a> Sys<'a> {
 
     fn insert(&self, f: usize, x: usize, s: usize, tag: u32) {
         let _ = self.tables.insert_route(
-            self.env.sources[s].clone(),
+            self.cur_src[s].clone(),
             fam_of(f),
             packet::PathNlri::new(self.env.nlri[f][x].clone()),
             Some(self.env.nh[f]),
@@ -945,6 +1016,9 @@ struct Judge {
     /// resolved it since — only used to name the cause of a second dump in the
     /// signature
     readded: [[bool; NTF]; NP],
+    /// (family, shard): while the family was still held, a session drop left this
+    /// shard's table of the family empty (or found it empty) — coverage counters only
+    emptied_by_drop: [[bool; 4]; NTF],
     next_tag: u32,
     nontrivial: bool,
     judged: u64,
@@ -1109,6 +1183,9 @@ fn judged_insert(
         if deferred {
             j.held_inserts[f] += 1;
             st.add("insert:held-back");
+            if j.emptied_by_drop[f][sys.shard_of(f, x)] {
+                st.add("insert:held-back-after-drop-emptied-the-shard-table");
+            }
         }
         if !must_silent {
             st.add("unjudged:insert-in-ambiguous-state");
@@ -1277,6 +1354,92 @@ async fn judged_new_session(
     Ok(())
 }
 
+/// `Op::TDrop`: the table side of a session end.  Nothing of a family that is
+/// still held may be announced because of it (the drop / stale marking of held
+/// routes is silent); for released / never-deferred families the RIB reports the
+/// change as usual (not a C11 clause: only checked for consistency with the
+/// table model, mismatches are counted).
+fn judged_drop(sys: &mut Sys, j: &mut Judge, st: &mut Stats, p: usize, hard: bool, step: usize) -> Result<(), Viol> {
+    let shards = sys.cfg.shards as usize;
+    // per (family, shard): routes before the drop, and how many of them are the peer's only
+    let mut before = [[0usize; 4]; NTF];
+    for f in 0..NTF {
+        for x in 0..NPFX {
+            if !j.tbl[f][x].is_empty() {
+                before[f][sys.shard_of(f, x)] += 1;
+            }
+        }
+    }
+    let Some((dropf, stale)) = sys.table_side_of_session_end(p, hard) else {
+        st.add("drop:no-established-session");
+        return Ok(());
+    };
+    j.judged += 1;
+    st.add(if hard { "drop:sessions-not-gr-eligible" } else if stale.is_empty() { "drop:sessions-without-gr" } else { "drop:sessions-gr-eligible" });
+    let mut affected: Vec<(usize, usize)> = Vec::new();
+    for &f in &dropf {
+        for x in 0..NPFX {
+            if j.tbl[f][x].remove(&(p as u8)).is_some() {
+                affected.push((f, x));
+            }
+        }
+    }
+    for &f in &stale {
+        for x in 0..NPFX {
+            if j.tbl[f][x].contains_key(&(p as u8)) {
+                affected.push((f, x));
+                st.add("drop:held-or-released-path-marked-stale");
+            }
+        }
+    }
+    let ch = sys.drain();
+    for f in 0..NTF {
+        let deferred = j.model.is_deferred(f);
+        let chf: Vec<&Change> = ch.iter().filter(|c| c.0 as usize == f).collect();
+        if deferred && !j.obs_released[f] {
+            if !chf.is_empty() {
+                if j.model.must_hold(f) {
+                    return Err(viol(
+                        "held",
+                        "session-drop",
+                        &format!("announced-while-{}", j.model.blocker_fact(f)),
+                        format!("the end of a session made the RIB announce routes of {} although the family is still deferred", FAM_NAME[f]),
+                        step,
+                        changes_str(&ch),
+                        format!("no NlriChange for {} (model: {})", FAM_NAME[f], j.model.describe()),
+                    ));
+                }
+                // ambiguous model state: the family had been released without a visible dump
+                if before[f].iter().any(|n| *n > 0) {
+                    return Err(viol("exactly-once", "session-drop", "released-without-announcing-held-prefixes", format!("{} stopped deferring but the prefixes received meanwhile were never announced", FAM_NAME[f]), step, changes_str(&ch), "a dump of every held prefix at release".into()));
+                }
+                j.obs_released[f] = true;
+            }
+            if dropf.contains(&f) {
+                for sh in 0..shards {
+                    let after = (0..NPFX).filter(|x| sys.shard_of(f, *x) == sh && !j.tbl[f][*x].is_empty()).count();
+                    if after == 0 {
+                        j.emptied_by_drop[f][sh] = true;
+                        st.add(if before[f][sh] == 0 { "drop:held-family-shard-table-already-empty" } else { "drop:held-family-shard-table-emptied-by-the-drop" });
+                    } else {
+                        st.add(if after == before[f][sh] { "drop:held-family-shard-table-untouched" } else { "drop:held-family-shard-table-shared" });
+                    }
+                }
+            }
+        } else {
+            for c in &chf {
+                let x = c.1 as usize;
+                if !affected.contains(&(f, x)) || c.2 != j.want_paths(f, x) {
+                    st.add("unjudged:session-drop-announcement-differs-from-table-model");
+                } else {
+                    st.add("drop:released-family-change-announced");
+                }
+            }
+        }
+    }
+    Ok(())
+}
+
 /// Execute one op list against a fresh coupled system and judge every step.
 async fn run_ops(
     env: &Env,
@@ -1302,6 +1465,7 @@ async fn run_ops(
         obs_released: [false; NTF],
         held_inserts: [0; NTF],
         readded: [[false; NTF]; NP],
+        emptied_by_drop: [[false; 4]; NTF],
         next_tag: 1,
         nontrivial: false,
         judged: 0,
@@ -1360,6 +1524,12 @@ async fn run_ops_inner(
     }
     for (step, op) in ops.iter().enumerate() {
         match op {
+            Op::TDrop(p, hard) => {
+                if want_trace {
+                    trace.push(op_str(op));
+                }
+                judged_drop(sys, j, st, *p as usize, *hard, step)?;
+            }
             Op::Sess => {
                 if want_trace {
                     trace.push(op_str(op));
@@ -1430,6 +1600,9 @@ async fn run_ops_inner(
                     Ev::Wd(..) => "ev:withdrawn",
                     Ev::Timer => "ev:timer",
                 });
+                if let Ev::Est(p, m) = *ev {
+                    sys.sess_mask[p as usize] = Some(m);
+                }
                 let before = j.model.clone();
                 j.model.apply(ev);
                 let was_readded = j.readded;
@@ -1749,6 +1922,7 @@ impl Ctx {
                             Op::Ev(Ev::Timer) => key.push(4),
                             Op::Ins(f, x, sr) => key.extend_from_slice(&[5, f, x, sr]),
                             Op::Sess => key.push(6),
+                            Op::TDrop(p, h) => key.extend_from_slice(&[7, p, h as u8]),
                         }
                     }
                     self.rep.nontrivial(fnv64(&key));
@@ -1939,7 +2113,19 @@ fn schedule(events: &[Ev], variant: u64, shards: u8, deferred: u8) -> Vec<Op> {
     if sess_at == Some(0) {
         ops.push(Op::Sess);
     }
+    let mut up = [false; NP];
     for (i, ev) in events.iter().enumerate() {
+        match *ev {
+            Ev::Est(p, _) => up[p as usize] = true,
+            Ev::Wd(p) => {
+                // the session (if one is up) first goes away on the table side
+                if up[p as usize] {
+                    ops.push(Op::TDrop(p, (v >> (12 + i)) & 3 == 0));
+                    up[p as usize] = false;
+                }
+            }
+            _ => {}
+        }
         ops.push(Op::Ev(*ev));
         let f1 = (v + i) % NTF;
         ops.push(Op::Ins(
@@ -2130,7 +2316,7 @@ fn random_cfg(rng: &mut Rng) -> Cfg {
     Cfg {
         helper,
         timer: rng.chance(5, 6),
-        shards: 1 + rng.below(2) as u8,
+        shards: [1u8, 2, 2, 4][rng.usize(4)],
         mode: if rng.chance(1, 2) {
             Mode::Session
         } else {
@@ -2153,6 +2339,7 @@ fn random_ops(rng: &mut Rng, cfg: &Cfg, alpha: &[Ev], nev: usize) -> Vec<Op> {
     }
     // the driver's view of each peer's session, for "realistic" choices
     let mut neg: [Option<u8>; NP] = [None; NP];
+    let mut up = [false; NP];
     for _ in 0..nev {
         let ev = if rng.chance(1, 2) {
             *rng.pick(alpha)
@@ -2182,8 +2369,17 @@ fn random_ops(rng: &mut Rng, cfg: &Cfg, alpha: &[Ev], nev: usize) -> Vec<Op> {
             }
         };
         match ev {
-            Ev::Est(p, m) => neg[p as usize] = Some(m),
-            Ev::Wd(p) => neg[p as usize] = None,
+            Ev::Est(p, m) => {
+                neg[p as usize] = Some(m);
+                up[p as usize] = true;
+            }
+            Ev::Wd(p) => {
+                neg[p as usize] = None;
+                if up[p as usize] && rng.chance(9, 10) {
+                    ops.push(Op::TDrop(p, rng.chance(1, 3)));
+                    up[p as usize] = false;
+                }
+            }
             _ => {}
         }
         ops.push(Op::Ev(ev));
@@ -2199,7 +2395,7 @@ fn random_ops(rng: &mut Rng, cfg: &Cfg, alpha: &[Ev], nev: usize) -> Vec<Op> {
         for s in 0..cfg.shards as usize {
             ops.push(Op::Ins(
                 f as u8,
-                (rng.below(2) * 2) as u8 + s as u8,
+                if cfg.shards > 2 { s as u8 } else { (rng.below(2) * 2) as u8 + s as u8 },
                 rng.below(NSRC as u64) as u8,
             ));
         }
@@ -2220,10 +2416,10 @@ fn run_random(ctx: &mut Ctx, rng: &mut Rng, count: u64) {
         } else {
             "random:glue-mode"
         });
-        ctx.rep.count(if cfg.shards == 2 {
-            "random:2-shards"
-        } else {
-            "random:1-shard"
+        ctx.rep.count(match cfg.shards {
+            1 => "random:1-shard",
+            2 => "random:2-shards",
+            _ => "random:4-shards",
         });
         if !cfg.timer {
             ctx.rep.count("random:timer-disabled");
@@ -2393,6 +2589,9 @@ impl ConcPool {
 
 #[derive(Clone, Copy, Debug)]
 struct SessOp {
+    /// the thread's session ends on the table side (unregister_peer + peer_down)
+    /// and a new session (new Source) carries on; Some(hard)
+    drop: Option<bool>,
     insert: bool,
     f: u8,
     x: u8,
@@ -2495,7 +2694,12 @@ fn conc_trial(ctx: &mut Ctx, pools: &[ConcPool], tseed: u64) {
         let mut ops = Vec::new();
         for i in 0..n {
             let f = if r.chance(1, 6) { 3 } else { r.below(2) as u8 };
-            ops.push(SessOp { insert: r.chance(7, 10), f, x: *r.pick(&hot), tag: 10_000 * (t as u32 + 1) + i as u32 });
+            ops.push(SessOp { drop: None, insert: r.chance(7, 10), f, x: *r.pick(&hot), tag: 10_000 * (t as u32 + 1) + i as u32 });
+        }
+        if r.chance(1, 4) {
+            // one session flap somewhere in the plan
+            let at = r.usize(ops.len());
+            ops.insert(at, SessOp { drop: Some(r.chance(1, 2)), insert: false, f: 0, x: 0, tag: 0 });
         }
         plans.push(ops);
     }
@@ -2509,7 +2713,7 @@ fn conc_trial(ctx: &mut Ctx, pools: &[ConcPool], tseed: u64) {
         rt.block_on(async {
             let mut sys = Sys::start(env, &cfg, global.clone(), None).await;
             for &(f, x, s, tg) in &plan_pre {
-                let _ = sys.tables.insert_route(env.sources[s as usize].clone(), fam_of(f as usize), packet::PathNlri::new(pool.data[f as usize][x as usize].clone()), Some(env.nh[f as usize]), mk_attrs(tg), None, 0);
+                let _ = sys.tables.insert_route(sys.cur_src[s as usize].clone(), fam_of(f as usize), packet::PathNlri::new(pool.data[f as usize][x as usize].clone()), Some(env.nh[f as usize]), mk_attrs(tg), None, 0);
             }
             for ev in [Ev::Est(0, 3), Ev::Est(1, 3), Ev::Eor(0, 0), Ev::Eor(0, 1)] {
                 sys.feed(&ev, None).await;
@@ -2552,45 +2756,84 @@ fn conc_trial(ctx: &mut Ctx, pools: &[ConcPool], tseed: u64) {
                     }
                 });
                 rs.store(2, Ordering::SeqCst);
-                0u64
+                (0u64, 0u64)
             })
         }));
     }
     for t in 0..nsess {
-        let (tables, src, ops, rs, b, d) = (sys.tables.clone(), env.sources[t].clone(), plans[t].clone(), rel_state.clone(), barrier.clone(), delays[t + 1]);
+        let (tables, src0, ops, rs, b, d) = (sys.tables.clone(), sys.cur_src[t].clone(), plans[t].clone(), rel_state.clone(), barrier.clone(), delays[t + 1]);
         let nlri: Vec<Vec<packet::Nlri>> = pool.data.clone();
         let nh = env.nh.clone();
+        let peers = env.peers;
+        // the session's own peer channel (registered under a separate address so
+        // that the flap below does not remove it): lets the thread see, right after
+        // each of its operations, what has been announced so far
+        let mut own_rx = sys.tables.register_peer(IpAddr::V4(Ipv4Addr::new(10, 0, 0, 60 + t as u8)), FnvHashSet::default(), |_| {});
         handles.push(std::thread::spawn(move || {
             guard(move || {
                 crate::verif_hooks::set_thread_id(10 + t as u32);
+                let mut src = src0;
                 b.wait();
                 let t0 = std::time::Instant::now();
                 while (t0.elapsed().as_micros() as u64) < d {
                     std::hint::spin_loop();
                 }
                 let mut during = 0u64;
+                let mut early = 0u64;
                 for op in &ops {
                     let s0 = rs.load(Ordering::SeqCst);
-                    let net = packet::PathNlri::new(nlri[op.f as usize][op.x as usize].clone());
-                    if op.insert {
-                        let _ = tables.insert_route(src.clone(), fam_of(op.f as usize), net, Some(nh[op.f as usize]), mk_attrs(op.tag), None, 0);
+                    if let Some(hard) = op.drop {
+                        // both helpers negotiated GR for ipv4 + ipv6; vpnv6 has no GR
+                        let all = [Family::IPV4, Family::IPV6, Family::IPV6_VPN];
+                        let (dropf, stale): (&[Family], &[Family]) = if hard { (&all[..], &[]) } else { (&all[2..], &all[..2]) };
+                        tables.unregister_peer(peers[t], dropf, stale);
+                        tables.peer_down(crate::table_manager::PeerDownData {
+                            peer_addr: peers[t],
+                            peer_asn: 65100 + t as u32,
+                            peer_id: u32::from(Ipv4Addr::new(2, 0, 0, 1 + t as u8)),
+                            uptime: 0,
+                            reason: crate::bmp::session_down_to_bmp(None),
+                        });
+                        src = new_source(&peers, t);
                     } else {
-                        tables.remove_route(src.clone(), fam_of(op.f as usize), net, None, 0);
+                        let net = packet::PathNlri::new(nlri[op.f as usize][op.x as usize].clone());
+                        if op.insert {
+                            let _ = tables.insert_route(src.clone(), fam_of(op.f as usize), net, Some(nh[op.f as usize]), mk_attrs(op.tag), None, 0);
+                        } else {
+                            tables.remove_route(src.clone(), fam_of(op.f as usize), net, None, 0);
+                        }
+                    }
+                    // anything of a deferred family that is in the channel while the
+                    // release has not even started was announced too early
+                    let mut got_deferred = 0u64;
+                    while let Ok(ev) = own_rx.try_recv() {
+                        if let ToPeerEvent::NlriChange(c) = ev
+                            && (c.family == Family::IPV4 || c.family == Family::IPV6)
+                        {
+                            got_deferred += 1;
+                        }
                     }
                     let s1 = rs.load(Ordering::SeqCst);
+                    if s1 == 0 {
+                        early += got_deferred;
+                    }
                     if s0 == 1 || s1 == 1 || (s0 == 0 && s1 == 2) {
                         during += 1;
                     }
                 }
-                during
+                (during, early)
             })
         }));
     }
     let mut during_total = 0u64;
+    let mut early_total = 0u64;
     let mut panicked: Option<String> = None;
     for h in handles {
         match h.join() {
-            Ok(Ok(n)) => during_total += n,
+            Ok(Ok((n, e))) => {
+                during_total += n;
+                early_total += e;
+            }
             Ok(Err(p)) => panicked = Some(format!("C11/panic/{}:{}|{}", p.location, panic_class(&p.message), p.message)),
             Err(_) => panicked = Some("C11/panic/?:other|thread join failed".to_string()),
         }
@@ -2640,7 +2883,10 @@ fn conc_trial(ctx: &mut Ctx, pools: &[ConcPool], tseed: u64) {
             (
                 "session_threads",
                 Json::arr(plans.iter().enumerate().map(|(t, ops)| {
-                    Json::strs(ops.iter().map(|o| format!("{} {}#{} src{}/med{}", if o.insert { "insert" } else { "remove" }, FAM_NAME[o.f as usize], o.x, t + 1, o.tag)).collect::<Vec<_>>())
+                    Json::strs(ops.iter().map(|o| match o.drop {
+                        Some(hard) => format!("session of src{} ends on the table side ({}), new session", t + 1, if hard { "all families dropped" } else { "ipv4/ipv6 marked stale, vpnv6 dropped" }),
+                        None => format!("{} {}#{} src{}/med{}", if o.insert { "insert" } else { "remove" }, FAM_NAME[o.f as usize], o.x, t + 1, o.tag),
+                    }).collect::<Vec<_>>())
                 })),
             ),
             ("what", Json::s(what)),
@@ -2659,6 +2905,7 @@ fn conc_trial(ctx: &mut Ctx, pools: &[ConcPool], tseed: u64) {
         _ => "conc:ended-by-timer",
     });
     ctx.rep.count_n("conc:session-ops", plans.iter().map(|p| p.len() as u64).sum());
+    ctx.rep.count_n("conc:session-flaps", plans.iter().map(|p| p.iter().filter(|o| o.drop.is_some()).count() as u64).sum());
     ctx.rep.count_n("conc:session-ops-during-release", during_total);
     ctx.rep.count_n("conc:session-ops-between-shard-releases", between);
     ctx.rep.max("conc-sched-point-hits", hits);
@@ -2671,6 +2918,15 @@ fn conc_trial(ctx: &mut Ctx, pools: &[ConcPool], tseed: u64) {
         let (sig, msg) = p.split_once('|').unwrap_or((&p, ""));
         ctx.rep.violation(sig, &format!("a thread of the concurrent trial panicked: {}", msg), witness("panic", msg.to_string(), &stream));
         ctx.global = new_global();
+        return;
+    }
+    if early_total > 0 {
+        ctx.rep.violation(
+            &format!("C11/held/{}/conc-announced-before-the-release-started", evk),
+            "a session thread found an NlriChange of a deferred family on its peer channel while the step that ends the deferral had not started yet",
+            witness("held (concurrent)", format!("{} such NlriChanges", early_total), &stream),
+        );
+        sys_finish(ctx, sys);
         return;
     }
     if held_leak {
@@ -2694,6 +2950,19 @@ fn conc_trial(ctx: &mut Ctx, pools: &[ConcPool], tseed: u64) {
     let mut touched: std::collections::BTreeSet<(u8, u8)> = Default::default();
     for (t, ops) in plans.iter().enumerate() {
         for o in ops {
+            if let Some(hard) = o.drop {
+                for &f in &CONC_FAMS {
+                    for x in 0..CONC_NPFX {
+                        if expect[f][x].contains_key(&(t as u8)) {
+                            touched.insert((f as u8, x as u8));
+                            if hard || f == 3 {
+                                expect[f][x].remove(&(t as u8));
+                            }
+                        }
+                    }
+                }
+                continue;
+            }
             touched.insert((o.f, o.x));
             if o.insert {
                 expect[o.f as usize][o.x as usize].insert(t as u8, o.tag);
